@@ -34,6 +34,11 @@ Layers (bound iteration by sequence length n):
            back-to-back, `// x \\`-continued, `//` holding `/*`, `/*` holding `//` and
            directives ...) x position (end of each region, kept or skipped; trailing each
            directive; everywhere at once)
+    selfref core sequences in which exactly one condition is built from an identifier that is
+           defined but expands to itself (#define X X; a 2-cycle; F(1) with #define F(x) F)
+           x {== 0, !, + 1, < 1, defined() &&, || 0, bare, != 0}: the leftover counts as 0
+    numlit  the same with integer-literal spellings (10L, 10u, 0x10, 0X1F, 010, 1'000, 'a',
+           0b11, 10ULL, 0xeL) x {== value, == value+1, > value-1}
     spell  core sequences with the directives spelled `  #   if\tc` / `#if /* #endif */ c // #else`
 """
 import functools
@@ -62,8 +67,29 @@ CONDS = [
     ("hasinc0", "__has_include(<absent_verif_zz.h>)", lambda s: False),
     ("true", "true", lambda s: True),
 ]
-CTEXT = {n: t for n, t, _ in CONDS}
-CEVAL = {n: f for n, _, f in CONDS}
+# identifiers that are DEFINED yet expand to themselves (directly, through a 2-cycle, or as
+# the result of a function-like macro): in a controlling expression what is left over is an
+# ordinary identifier and counts as 0.   @X: #define X X   @Y: #define Ya Yb / #define Yb Ya
+# @F: #define F(x) F, used as F(1)
+_SELF_ENT = [("X", "@X"), ("Y", "@Y"), ("F", "@F(1)")]
+_SELF_OPS = [("==0", "%s == 0", True), ("not", "!%s", True), ("+1", "%s + 1", True),
+             ("<1", "%s < 1", True), ("def&&", "defined(%d) && %s < 1", True),
+             ("||0", "%s || 0", False), ("bare", "%s", False), ("!=0", "%s != 0", False)]
+SELFREF = []
+for _en, _et in _SELF_ENT:
+    for _on, _ot, _val in _SELF_OPS:
+        _txt = _ot.replace("%d", _et.split("(")[0]).replace("%s", _et)
+        SELFREF.append(("self%s%s" % (_en, _on), _txt, (lambda v: (lambda s: v))(_val)))
+# integer literal spellings: suffixes, prefixes and digit separators are part of the number
+_NUMS = [("10L", 10), ("10u", 10), ("0x10", 16), ("0X1F", 31), ("010", 8), ("1'000", 1000),
+         ("'a'", 97), ("0b11", 3), ("10ULL", 10), ("0xeL", 14)]
+NUMLIT = []
+for _sp, _v in _NUMS:
+    NUMLIT.append(("num%s==" % _sp, "%s == %d" % (_sp, _v), (lambda s: True)))
+    NUMLIT.append(("num%s==+1" % _sp, "%s == %d" % (_sp, _v + 1), (lambda s: False)))
+    NUMLIT.append(("num%s>" % _sp, "%s > %d" % (_sp, _v - 1), (lambda s: True)))
+CTEXT = {n: t for n, t, _ in CONDS + SELFREF + NUMLIT}
+CEVAL = {n: f for n, _, f in CONDS + SELFREF + NUMLIT}
 
 FULL_OP = ["if:" + n for n, _, _ in CONDS] + ["ifdef", "ifndef"]
 FULL_EL = ["elif:" + n for n, _, _ in CONDS] + ["elifdef", "elifndef"]
@@ -166,15 +192,17 @@ def _rank(sym):
     return _ORDER[sym]
 
 
-def dev1(core_seqs):
-    """core sequences with exactly one condition replaced by each non-core spelling"""
+def dev1(core_seqs, ext=None):
+    """core sequences with exactly one condition replaced by each spelling of ext
+    (default: the non-core spellings of the condition alphabet)"""
+    ext = EXT if ext is None else ext
     for s in core_seqs:
         for i, sym in enumerate(s):
             if sym == "if:0":
-                for e in EXT:
+                for e in ext:
                     yield s[:i] + ("if:" + e,) + s[i + 1:]
             elif sym == "elif:0":
-                for e in EXT:
+                for e in ext:
                     yield s[:i] + ("elif:" + e,) + s[i + 1:]
 
 
@@ -247,7 +275,8 @@ def directive_text(sym, K, spell=None):
         d, a = sym, ""
     else:
         d, c = sym.split(":", 1)
-        a = CTEXT[c].replace("@A", "A" + K).replace("@B", "B" + K)
+        a = CTEXT[c].replace("@A", "A" + K).replace("@B", "B" + K) \
+            .replace("@X", "X" + K).replace("@Y", "Ya" + K).replace("@F", "F" + K)
     if spell == "ws":          # blanks before and after the #, tab before the arguments
         return ("  #   %s\t%s  " % (d, a)).rstrip("\t") if a else "  #   %s  " % d
     if spell == "cmt":         # comments after the directive name / the arguments
@@ -263,6 +292,9 @@ def render(c, k):
     L = []
     if var.startswith("d"):
         L += ["#define A%s 2" % K, "#define B%s 1" % K]
+    if any(":self" in sym for sym in seq):
+        L += ["#define X%s X%s" % (K, K), "#define Ya%s Yb%s" % (K, K),
+              "#define Yb%s Ya%s" % (K, K), "#define F%s(x) F%s" % (K, K)]
     L.append("int __case_%s__;" % K)
     spans = []
     dirs = []
@@ -469,6 +501,7 @@ def layers_for(tier):
     ndev = 7 if thorough else 6
     nlit = 5 if thorough else 4
     ncmt = 5 if thorough else 4
+    nself = 5 if thorough else 4
     nspell = 6 if thorough else 5
     plan = []
     for n in range(2, ncore + 1):
@@ -482,6 +515,9 @@ def layers_for(tier):
             plan.append((n, "lit", lambda n=n: core(n)))
         if n <= ncmt:
             plan.append((n, "cmt", lambda n=n: core(n)))
+        if n <= nself:
+            plan.append((n, "selfref", lambda n=n: dev1(core(n), [c for c, _, _ in SELFREF])))
+            plan.append((n, "numlit", lambda n=n: dev1(core(n), [c for c, _, _ in NUMLIT])))
         if n <= nspell:
             plan.append((n, "spell", lambda n=n: core(n)))
     return plan
